@@ -84,9 +84,20 @@ func NewStakeCtrler(config *cfg.Config, govHandler ctrlertypes.IGovHandler, logg
 	// set `lastValidators` of StakeCtrler
 	// Restore the validator set that the last block reported to the consensus engine:
 	// EndBlock selected it from the delegatees as committed by the block before.
+	maxVals := govHandler.MaxValidatorCnt()
 	if ver := delegateeLedger.Version(); ver > 1 {
+		// the parameters in force during the last block are the ones committed by the block before
+		lastParams := govHandler
+		if g, ok := govHandler.(interface {
+			GovParamsAt(int64) (ctrlertypes.IGovHandler, xerrors.XError)
+		}); ok {
+			if p, xerr := g.GovParamsAt(ver - 1); xerr == nil {
+				lastParams = p
+			}
+		}
+		maxVals = lastParams.MaxValidatorCnt()
 		if immuLedger, xerr := delegateeLedger.ImmutableLedgerAt(ver-1, 128); xerr == nil {
-			minPower := ctrlertypes.AmountToPower(govHandler.MinValidatorStake())
+			minPower := ctrlertypes.AmountToPower(lastParams.MinValidatorStake())
 			_ = immuLedger.IterateReadAllItems(func(d *Delegatee) xerrors.XError {
 				if d.SelfPower >= minPower {
 					ret.allDelegatees = append(ret.allDelegatees, d)
@@ -96,7 +107,7 @@ func NewStakeCtrler(config *cfg.Config, govHandler ctrlertypes.IGovHandler, logg
 			sort.Sort(PowerOrderDelegatees(ret.allDelegatees))
 		}
 	}
-	_ = ret.UpdateValidators(int(govHandler.MaxValidatorCnt()))
+	_ = ret.UpdateValidators(int(maxVals))
 
 	return ret, nil
 }
